@@ -48,7 +48,7 @@ MANIFEST = {
             "end-to-end theorem passthrough_all_files: written bytes = the selected source lines, for every table and every "
             "program; the same for the k-line formats FASTQ / two-line FASTA (buildKLine_eq, build_kline_records, passthrough_kline). "
             "and for SAM (buildSam_eq, build_sam_records, passthrough_sam: variable tag columns, LF/CRLF) and BAM (build_bam_records, "
-            "passthrough_bam: block_size-prefixed records). Every constructed extractor is additionally validated per explored "
+            "passthrough_bam: block_size-prefixed records); crlf_last_column: the last column of every CRLF table is returned without its CR. Every constructed extractor is additionally validated per explored "
             "input by a checker proved sound (invB_sound); the shipped record-end rule is refuted (buildOld_unsound). "
             "Correspondence: real bnp.open/read/index/concatenate/replace/write on generated files of ten formats vs the Lean "
             "model vs the Lean spec vs a Python source-lines oracle.",
